@@ -164,9 +164,35 @@ def ranges(g, n):
 
 def long_legs(g, n, k):
     """two index lists of length k over [0,n) with structured patterns (long chains in awkward orders)"""
-    pat = g.r.choice(["zigzag", "dec_const", "const_dec", "inc_shift", "dec_shift", "random", "pairs_rev"])
+    pat = g.r.choice(["zigzag", "dec_const", "const_dec", "inc_shift", "dec_shift", "random", "pairs_rev", "paths", "paths"])
     if n == 0:
         return [], []
+    if pat == "paths":
+        # a forest of monotone paths, each listed from its far or near end, then links from path tips to members of
+        # other paths (deep chains built in one sweep, joined late)
+        nodes = list(range(n))
+        if g.r.random() < 0.3:
+            g.r.shuffle(nodes)
+        cuts = sorted(g.r.sample(range(1, n), min(n - 1, g.r.choice([1, 1, 2, 3])))) if n >= 2 else []
+        groups = [nodes[i:j] for i, j in zip([0] + cuts, cuts + [n])]
+        a, b = [], []
+        for grp in groups:
+            pairs = [(grp[i], grp[i + 1]) for i in range(len(grp) - 1)]
+            if g.r.random() < 0.5:
+                pairs = [(y, x) for x, y in pairs]
+            if g.r.random() < 0.6:
+                pairs.reverse()
+            a += [x for x, _ in pairs]
+            b += [y for _, y in pairs]
+        for i in range(len(groups) - 1):
+            if g.r.random() < 0.85:
+                tip = g.r.choice([groups[i + 1][-1], groups[i + 1][0]])
+                other = g.r.choice([groups[i][0], groups[i][-1], g.r.choice(groups[i])])
+                if g.r.random() < 0.5:
+                    tip, other = other, tip
+                a.append(tip)
+                b.append(other)
+        return a, b
     if pat == "zigzag":
         a = [(i // 2) % n for i in range(k)]
         b = [((i + 1) // 2) % n for i in range(k)]
@@ -267,7 +293,7 @@ def C07(g, tier):
         yield sx(["a_cumsum", xs]), n > 0
         yield sx(["a_zero", xs]), n > 0
         if g.r.random() < 0.3:
-            nn3 = g.r.randint(6, 30)
+            nn3 = g.r.choice([5, 6, 7, 7, 9, 10, 11, 12, 13, 15, 17, 20, 24, 30])
             sa, sb = long_legs(g, nn3, g.r.randint(8, 40))
             for bk in BACKENDS:
                 yield sx(["a_cc", bk, sa, sb, nn3]), True
